@@ -171,7 +171,8 @@ func VerifH_grpcweb() {
 	}
 	srv.reply.payload = vfBytes(vfLen(vfBound(3, 4))) // all residues mod 3
 	tv := vfPlainString(2)
-	srv.setTrail = metadata.MD{"x-t": []string{tv}}
+	rawBin := []byte{0xfb, 0xef, 0xbe} // base64 "++++": distinguishes the standard from the URL alphabet; symbolic bytes are covered by VerifH_binhdr
+	srv.setTrail = metadata.MD{"x-t": []string{tv}, "x-b-bin": []string{string(rawBin)}}
 	if vfBool() {
 		// the same key as header AND trailer metadata: both must arrive
 		srv.setHdr = metadata.MD{"x-t": []string{"hdr"}}
@@ -213,6 +214,8 @@ func VerifH_grpcweb() {
 		vfCheck(len(gm) == 1 && gm[0] == "m%25", "trailers-only response without the percent-encoded grpc-message header")
 		xt := w.sentHeader["X-T"]
 		vfCheck(len(xt) == 1 && xt[0] == tv, "trailer metadata set by the handler is not visible in a trailers-only response")
+		xb := w.sentHeader["X-B-Bin"]
+		vfCheck(len(xb) == 1 && (xb[0] == refBase64Encode(rawBin, false) || xb[0] == refBase64Encode(rawBin, true)), "binary trailer metadata of a trailers-only response is not the base64 of the handler's bytes")
 		vfCover("trailers-only")
 		return
 	}
@@ -239,6 +242,7 @@ func VerifH_grpcweb() {
 		vfCover("ok")
 	}
 	vfCheck(tr["x-t"] == tv, "trailer metadata set by the handler is not in the trailer frame")
+	vfCheck(tr["x-b-bin"] == refBase64Encode(rawBin, false) || tr["x-b-bin"] == refBase64Encode(rawBin, true), "binary trailer metadata in the trailer frame is not the base64 of the handler's bytes")
 	if text {
 		vfCover("text")
 	} else {
